@@ -14,7 +14,7 @@ import time
 from . import findings, kani, registry, sources, verus
 
 ROOT = registry.ROOT
-EVID = os.path.join(ROOT, "evidence")
+EVID = os.environ.get("FV_EVID_DIR") or os.path.join(ROOT, "evidence")
 REPLAYS = os.path.join(ROOT, "replays")
 
 TRUSTED_BASE = [
@@ -380,9 +380,39 @@ def main(argv):
     ap.add_argument("--keep", action="store_true")
     ap.add_argument("--only")
     ap.add_argument("--dev-verus", help="weave + run one Verus unit, print the verifier output (development aid)")
+    ap.add_argument("--dev-kani", help="weave + run the Kani harnesses of one unit (development aid; no evidence written)")
+    ap.add_argument("--filter", help="with --dev-kani: only harnesses whose name contains this text")
+    ap.add_argument("--timeout", type=int, default=0, help="with --dev-kani: per-harness timeout override (s)")
     a = ap.parse_args(argv)
     if a.setup:
         return setup()
+    if a.dev_kani:
+        u = registry.units()[a.dev_kani]
+        wd = tempfile.mkdtemp(prefix="fir-verif.")
+        try:
+            info = kani.build_crate(wd, [(u["id"], u["kani"])])
+            hs = [h for h in u["kani"]["harnesses"] if (not a.filter or a.filter in h["name"]) and (a.tier == "thorough" or h.get("tier", "quick") == "quick")]
+            run = kani.run_harnesses(info["crate"], [h["full"] for h in hs], jobs=int(os.environ.get("FV_JOBS", "12")),
+                                     harness_timeout=a.timeout or max(h.get("timeout", 300) for h in hs))
+            if run["json"] is None:
+                log(run["out"][-6000:])
+            cls = kani.classify(run, [h["name"] for h in hs])
+            for h in hs:
+                c = cls[h["name"]]
+                log("%-44s %-12s checks=%s covers_sat=%s unsat=%s solver=%.1fs wall=%ss" % (h["name"], c["status"], c["total"], c["covers_satisfied"],
+                    c["covers_unsat"], c["solver_s"] or 0, (c["duration_ms"] or 0) // 1000))
+                for f in c["failed"][:6]:
+                    log("      FAILED: %s  [%s %s:%s]" % (f["description"], f["function"], f["file"], f["line"]))
+                for f in c["inconclusive"][:4]:
+                    log("      inconclusive: %s" % f)
+            if run["killed"]:
+                log("watchdog killed:", run["killed"])
+        finally:
+            if a.keep:
+                log("scratch kept at", wd)
+            else:
+                shutil.rmtree(wd, ignore_errors=True)
+        return 0
     if a.dev_verus:
         u = registry.units()[a.dev_verus]
         wd = tempfile.mkdtemp(prefix="fir-verif.")
